@@ -19,6 +19,7 @@ ENGINES = {
     'E3': 'vf.engines.e3',
     'E4': 'vf.engines.e4',
     'E5': 'vf.engines.e5',
+    'E9': 'vf.engines.e9',
 }
 
 
